@@ -552,6 +552,254 @@ def generate_math():
     return '\n'.join(lines) + '\n'
 
 
+# ---------------------------------------------------------------- translator to coq/SymAst.v
+CLASS_NAMES = {'Constant', 'Variable', 'Add', 'Multiply', 'Minus', 'Divide', 'Power', 'Negation', 'Reciprocal',
+               'Sine', 'Cosine', 'NthPower', 'NthRoot', 'Exponential', 'Logarithm'}
+SYM_ATTRS = {'_inner', '_left', '_right', '_inners', 'n', 'base', 'value', 'name'}
+INTOPS = {ast.Add: '+', ast.Sub: '-', ast.Mult: '*', ast.FloorDiv: '//'}
+
+
+class SymTranslator:
+    """expression-building methods -> SymAst.sfun (fail-closed)"""
+
+    def __init__(self, where):
+        self.where = where
+
+    def fail(self, what, node=None):
+        raise TieError('cannot translate %s in %s: %s' % (what, self.where, ast.dump(node)[:160] if node is not None else ''))
+
+    def cls_name(self, e):
+        if isinstance(e, ast.Attribute) and isinstance(e.value, ast.Name) and e.value.id == 'ex' and e.attr in CLASS_NAMES:
+            return e.attr
+        if isinstance(e, ast.Name) and e.id in CLASS_NAMES:
+            return e.id
+        return None
+
+    def opt(self, e):
+        return 'None' if e is None else '(Some %s)' % self.expr(e)
+
+    def args(self, call):
+        out = []
+        for a in call.args:
+            if isinstance(a, ast.Starred):
+                out.append('("*", %s)' % self.expr(a.value))
+            else:
+                out.append('("", %s)' % self.expr(a))
+        for k in call.keywords:
+            if k.arg is None:
+                self.fail('**kwargs', call)
+            out.append('(%s, %s)' % (coq_str(k.arg), self.expr(k.value)))
+        return coq_list(out)
+
+    def comp(self, e):
+        if len(e.generators) != 1:
+            self.fail('nested comprehension', e)
+        g = e.generators[0]
+        if g.is_async or len(g.ifs) > 1:
+            self.fail('comprehension shape', e)
+        body = self.expr(e.elt)
+        tgt = g.target
+        if isinstance(tgt, ast.Name):
+            cond = 'None' if not g.ifs else '(Some %s)' % self.expr(g.ifs[0])
+            return '(XComp %s %s %s %s)' % (body, coq_str(tgt.id), self.expr(g.iter), cond)
+        if isinstance(tgt, ast.Tuple) and len(tgt.elts) == 2 and all(isinstance(x, ast.Name) for x in tgt.elts) and not g.ifs:
+            a, b = tgt.elts[0].id, tgt.elts[1].id
+            it = g.iter
+            if isinstance(it, ast.Call) and isinstance(it.func, ast.Attribute) and it.func.attr == 'items' and not it.args:
+                return '(XCompKV %s %s %s %s)' % (body, coq_str(a), coq_str(b), self.expr(it.func.value))
+            if isinstance(it, ast.Call) and isinstance(it.func, ast.Name) and it.func.id == 'enumerate' and len(it.args) == 1:
+                return '(XCompEnum %s %s %s %s)' % (body, coq_str(a), coq_str(b), self.expr(it.args[0]))
+        self.fail('comprehension target', e)
+
+    def lam(self, f, nparams):
+        if not isinstance(f, ast.Lambda) or len(f.args.args) != nparams or f.args.vararg or f.args.kwarg or f.args.defaults:
+            self.fail('lambda', f)
+        return [a.arg for a in f.args.args], self.expr(f.body)
+
+    def expr(self, e):
+        if isinstance(e, ast.Name):
+            return 'XSelf' if e.id == 'self' else '(XName %s)' % coq_str(e.id)
+        if isinstance(e, ast.Constant):
+            if e.value is None:
+                return 'XNone'
+            if isinstance(e.value, bool):
+                self.fail('bool literal', e)
+            if isinstance(e.value, int):
+                return '(XInt (%d)%%Z)' % e.value
+            self.fail('literal', e)
+        if isinstance(e, ast.UnaryOp) and isinstance(e.op, ast.USub) and isinstance(e.operand, ast.Constant) \
+                and isinstance(e.operand.value, int) and not isinstance(e.operand.value, bool):
+            return '(XInt (%d)%%Z)' % (-e.operand.value)
+        if isinstance(e, ast.UnaryOp) and isinstance(e.op, ast.Not):
+            return '(XNot %s)' % self.expr(e.operand)
+        if isinstance(e, ast.Attribute):
+            if isinstance(e.value, ast.Name) and e.value.id == 'math' and e.attr == 'e':
+                return 'XMathE'
+            if e.attr in SYM_ATTRS:
+                return '(XAttr %s %s)' % (self.expr(e.value), coq_str(e.attr))
+            self.fail('attribute', e)
+        if isinstance(e, ast.BinOp) and type(e.op) in INTOPS:
+            return '(XIntOp %s %s %s)' % (coq_str(INTOPS[type(e.op)]), self.expr(e.left), self.expr(e.right))
+        if isinstance(e, ast.BoolOp) and isinstance(e.op, ast.And):
+            out = self.expr(e.values[-1])
+            for v in reversed(e.values[:-1]):
+                out = '(XAnd %s %s)' % (self.expr(v), out)
+            return out
+        if isinstance(e, ast.Compare) and len(e.ops) == 1:
+            op = e.ops[0]
+            l, r = e.left, e.comparators[0]
+            if isinstance(op, (ast.Is, ast.IsNot)) and isinstance(r, ast.Constant) and r.value is None:
+                t = '(XIsNone %s)' % self.expr(l)
+                return t if isinstance(op, ast.Is) else '(XNot %s)' % t
+            if type(op) in CMPOPS:
+                return '(XCmp %s %s %s)' % (coq_str(CMPOPS[type(op)]), self.expr(l), self.expr(r))
+            self.fail('comparison', e)
+        if isinstance(e, (ast.ListComp, ast.GeneratorExp)):
+            return self.comp(e)
+        if isinstance(e, ast.Subscript):
+            if isinstance(e.slice, ast.Slice):
+                if e.slice.step is not None:
+                    self.fail('slice step', e)
+                return '(XSlice %s %s %s)' % (self.expr(e.value), self.opt(e.slice.lower), self.opt(e.slice.upper))
+            return '(XIndex %s %s)' % (self.expr(e.value), self.expr(e.slice))
+        if isinstance(e, ast.Call):
+            f = e.func
+            cn = self.cls_name(f)
+            if cn is not None:
+                return '(XCtor %s %s)' % (coq_str(cn), self.args(e))
+            if isinstance(f, ast.Name):
+                if f.id == 'isinstance' and len(e.args) == 2 and not e.keywords:
+                    c = self.cls_name(e.args[1])
+                    if c is None:
+                        self.fail('isinstance class', e)
+                    return '(XIsInst %s %s)' % (self.expr(e.args[0]), coq_str(c))
+                if f.id == 'len' and len(e.args) == 1 and not e.keywords:
+                    return '(XLen %s)' % self.expr(e.args[0])
+                if f.id in ('any', 'all') and len(e.args) == 1 and isinstance(e.args[0], ast.GeneratorExp) and not e.keywords:
+                    g = e.args[0]
+                    if len(g.generators) != 1 or g.generators[0].ifs or not isinstance(g.generators[0].target, ast.Name):
+                        self.fail('any/all shape', e)
+                    return '(XAnyAll %s %s %s %s)' % ('true' if f.id == 'all' else 'false', self.expr(g.elt),
+                                                     coq_str(g.generators[0].target.id), self.expr(g.generators[0].iter))
+                if f.id.startswith('_') and not e.keywords and not any(isinstance(a, ast.Starred) for a in e.args):
+                    return '(XCall %s %s)' % (coq_str(f.id), coq_list([self.expr(a) for a in e.args]))
+                self.fail('call of a name', e)
+            if isinstance(f, ast.Attribute) and isinstance(f.value, ast.Name) and f.value.id in ('math', 'util', 'be', 'mf'):
+                mod, fn = f.value.id, f.attr
+                if e.keywords and mod != 'mf':
+                    self.fail('keyword arguments', e)
+                if mod == 'mf':
+                    return '(XMf %s %s)' % (coq_str(fn), self.args(e))
+                a = e.args
+                if any(isinstance(x, ast.Starred) for x in a):
+                    self.fail('starred argument', e)
+                if (mod, fn) == ('math', 'gcd') and len(a) == 2:
+                    return '(XGcd %s %s)' % (self.expr(a[0]), self.expr(a[1]))
+                if (mod, fn) == ('util', 'integer_from_integral_float') and len(a) == 1:
+                    return '(XIntegral %s)' % self.expr(a[0])
+                if mod == 'util' and fn in ('is_even', 'is_odd') and len(a) == 1:
+                    return '(XParity %s %s)' % ('true' if fn == 'is_odd' else 'false', self.expr(a[0]))
+                if (mod, fn) == ('be', 'first_of_given_type') and len(a) == 2 and self.cls_name(a[1]):
+                    return '(XFirstOfType %s %s)' % (self.expr(a[0]), coq_str(self.cls_name(a[1])))
+                if (mod, fn) == ('be', 'partition_by_given_type') and len(a) == 2 and self.cls_name(a[1]):
+                    return '(XPartition %s %s)' % (self.expr(a[0]), coq_str(self.cls_name(a[1])))
+                if (mod, fn) == ('util', 'group_by_key') and len(a) == 2:
+                    ps, body = self.lam(a[1], 1)
+                    return '(XGroupBy %s %s %s)' % (self.expr(a[0]), coq_str(ps[0]), body)
+                if (mod, fn) == ('util', 'map_dictionary_values') and len(a) == 2:
+                    ps, body = self.lam(a[1], 2)
+                    return '(XMapValues %s %s %s %s)' % (self.expr(a[0]), coq_str(ps[0]), coq_str(ps[1]), body)
+                if (mod, fn) == ('util', 'list_without_entry_at') and len(a) == 2:
+                    return '(XWithout %s %s)' % (self.expr(a[0]), self.expr(a[1]))
+                self.fail('library call', e)
+            if isinstance(f, ast.Attribute) and not e.keywords and not any(isinstance(a, ast.Starred) for a in e.args):
+                if f.attr == 'values' and not e.args:
+                    return '(XValues %s)' % self.expr(f.value)
+                if f.attr.startswith('_'):
+                    # a call of another method: interpreted by the oracle, receiver first
+                    return '(XCall %s %s)' % (coq_str(f.attr), coq_list([self.expr(f.value)] + [self.expr(a) for a in e.args]))
+            if isinstance(f, ast.Attribute) and f.attr == '_rebuild' and not e.keywords:
+                # self._rebuild(*xs): the starred form, receiver first
+                if len(e.args) == 1 and isinstance(e.args[0], ast.Starred):
+                    return '(XCall "_rebuild*" %s)' % coq_list([self.expr(f.value), self.expr(e.args[0].value)])
+            self.fail('call', e)
+        self.fail('expression', e)
+
+    def block(self, stmts):
+        out = []
+        for s in stmts:
+            if isinstance(s, ast.Expr) and isinstance(s.value, ast.Constant):
+                continue
+            if isinstance(s, ast.AnnAssign) and s.value is None:
+                continue   # a bare type declaration
+            out.append(self.stmt(s))
+        return coq_list(out)
+
+    def stmt(self, s):
+        if isinstance(s, ast.Return):
+            return '(SReturn %s)' % ('XNone' if s.value is None else self.expr(s.value))
+        if isinstance(s, ast.Pass):
+            return 'SPass'
+        if isinstance(s, ast.If):
+            return '(SIf %s %s %s)' % (self.expr(s.test), self.block(s.body), self.block(s.orelse))
+        if isinstance(s, ast.Assign) and len(s.targets) == 1:
+            t = s.targets[0]
+            if isinstance(t, ast.Name):
+                return '(SAssign %s %s)' % (coq_str(t.id), self.expr(s.value))
+            if isinstance(t, ast.Tuple) and len(t.elts) == 2 and all(isinstance(x, ast.Name) for x in t.elts):
+                return '(SAssign2 %s %s %s)' % (coq_str(t.elts[0].id), coq_str(t.elts[1].id), self.expr(s.value))
+        self.fail('statement', s)
+
+    def function(self, fd, is_method=True):
+        a = fd.args
+        if a.kwonlyargs or a.kwarg or a.posonlyargs or a.vararg or a.defaults:
+            self.fail('parameters', fd)
+        params = [p.arg for p in a.args]
+        if is_method:
+            if not params or params[0] != 'self':
+                self.fail('method without self', fd)
+            params = params[1:]
+        return '{| s_params := %s; s_body := %s |}' % (coq_list([coq_str(p) for p in params]), self.block(fd.body))
+
+
+SYM_METHODS = ('_synthetic_partial', '_synthetic_partial_formula', '_synthetic_partial_formula_left',
+               '_synthetic_partial_formula_right', '_normalize_fully_reduced')
+BASE_FILES = ['unary_expression', 'binary_expression', 'n_ary_expression', 'parameterized_unary_expression']
+
+
+def generate_sym():
+    lines = ['(* GENERATED by harness/tie_extract.py: the current source of every _reduce_* method, of the',
+             '   _synthetic_partial* and _normalize_fully_reduced methods and of their helpers, translated into',
+             '   SymAst.sfun -- do not edit *)',
+             'From Coq Require Import ZArith List String.', 'From SM Require Import SymAst.',
+             'Import ListNotations.', 'Open Scope string_scope.', '']
+    table = []
+    files = [('expression', fn) for fn in EXPR_FILES] + [('base_expression', fn) for fn in BASE_FILES]
+    for sub, fn in files:
+        src = os.path.join(SRC, '_private', sub, fn + '.py')
+        t = parse(src)
+        for node in t.body:
+            if isinstance(node, ast.FunctionDef) and node.name.startswith('_simplified'):
+                tr = SymTranslator('%s.%s' % (fn, node.name))
+                lines.append('Definition gen_sym_fn%s : sfun := %s.' % (node.name, tr.function(node, is_method=False)))
+            if isinstance(node, ast.ClassDef):
+                for m in methods_of(node):
+                    if m.name.startswith('_reduce_') or m.name in SYM_METHODS:
+                        body = [s for s in m.body if not (isinstance(s, ast.Expr) and isinstance(s.value, ast.Constant))]
+                        if len(body) == 1 and isinstance(body[0], ast.Raise):
+                            continue   # abstract declaration
+                        tr = SymTranslator('%s.%s' % (node.name, m.name))
+                        ident = 'gen_sym_%s_%s' % (node.name, m.name.lstrip('_'))
+                        lines.append('Definition %s : sfun := %s.' % (ident, tr.function(m)))
+                        if m.name.startswith('_reduce_'):
+                            table.append((node.name, m.name, ident))
+    lines.append('')
+    lines.append('(* class, method name, translated body: every _reduce_* method that exists in the source *)')
+    lines.append('Definition gen_sym_reducers : list (string * string * sfun) :=')
+    lines.append('  ' + coq_list(['(%s, %s, %s)' % (coq_str(c), coq_str(m), i) for c, m, i in table]) + '.')
+    return '\n'.join(lines) + '\n'
+
+
 def write_if_changed(path, text):
     old = open(path).read() if os.path.exists(path) else None
     if old != text:
@@ -571,6 +819,14 @@ def main():
         print('TIE-TRANSLATE-FAILED: %s' % ex)
     if write_if_changed(os.path.join(coqdir, 'GeneratedMath.v'), mtext):
         print('GeneratedMath.v rewritten')
+    try:
+        stext = generate_sym()
+    except (TieError, SyntaxError, OSError) as ex:
+        stext = ('(* GENERATED: the translator FAILED CLOSED: %s *)\n'
+                 'Definition sym_translator_failed : False := I.\n') % str(ex).replace('*)', '* )')
+        print('TIE-TRANSLATE-FAILED: %s' % ex)
+    if write_if_changed(os.path.join(coqdir, 'GeneratedSym.v'), stext):
+        print('GeneratedSym.v rewritten')
     out = sys.argv[1] if len(sys.argv) > 1 else os.path.join(os.path.dirname(os.path.dirname(os.path.abspath(__file__))), 'coq', 'Generated.v')
     try:
         text = generate()
